@@ -53,6 +53,8 @@ class multi_output {
     }
   }
 
+  multi_output(const self_type &) = delete;
+
   ~multi_output() {
     m_comm.barrier();
     flush_all_buffers();
